@@ -78,6 +78,20 @@ impl AnalyzedSource {
             // would attach all build and semantic errors a second time.
             return self;
         }
+        let mut new_text = self.text.clone();
+        for change in &changes {
+            new_text.replace_range(change.to_range(), &change.text);
+        }
+        // The incremental lexer and parser reuse parts of the old analysis.
+        // If they stumble over an inconsistency, nothing of it can be trusted any more.
+        // Instead of taking the whole server down, the new text is analyzed from scratch.
+        std::panic::catch_unwind(std::panic::AssertUnwindSafe(move || {
+            self.update_incrementally(changes)
+        }))
+        .unwrap_or_else(|_| Self::new(new_text))
+    }
+
+    fn update_incrementally(self, changes: Vec<TextChange>) -> Self {
         let mut analysed_source = changes.into_iter().fold(self, |mut acc, change| {
             acc.text.replace_range(change.to_range(), &change.text);
             let (new_tokens, token_change) = lexer::update(&acc.text, acc.tokens, &change);
